@@ -18,6 +18,7 @@ package main
 //     body always leaves the block (return / continue / break) — so `if c { … return }; rest` and
 //     `if !c { rest }`, guard clauses, if/else chains and (after UseNormalizedAST) switches describe the same
 //     events; guards are printed sorted; operands of == and != are printed in lexical order;
+//   * comparisons have one spelling: a > b is printed as b < a, a >= b as b <= a, x <= 1 as x < 2;
 //   * named constants and literal concatenations are already folded by UseNormalizedAST.
 
 import (
@@ -25,6 +26,7 @@ import (
 	"go/ast"
 	"go/token"
 	"sort"
+	"strconv"
 	"strings"
 )
 
@@ -288,6 +290,24 @@ func (c *canon) expr(sc *cScope, e ast.Expr) cText {
 	case *ast.UnaryExpr:
 		return cText{v.Op.String() + c03Paren(c.expr(sc, v.X), 100), 6}
 	case *ast.BinaryExpr:
+		// one spelling per comparison: a > b is b < a, a >= b is b <= a, x <= 1 is x < 2
+		switch v.Op {
+		case token.GTR:
+			return c.expr(sc, &ast.BinaryExpr{X: v.Y, Op: token.LSS, Y: v.X})
+		case token.GEQ:
+			return c.expr(sc, &ast.BinaryExpr{X: v.Y, Op: token.LEQ, Y: v.X})
+		case token.LEQ:
+			if lit, ok := v.Y.(*ast.BasicLit); ok && lit.Kind == token.INT {
+				if n, err := strconv.Atoi(lit.Value); err == nil {
+					return c.expr(sc, &ast.BinaryExpr{X: v.X, Op: token.LSS, Y: &ast.BasicLit{Kind: token.INT, Value: strconv.Itoa(n + 1)}})
+				}
+			}
+			if lit, ok := v.X.(*ast.BasicLit); ok && lit.Kind == token.INT {
+				if n, err := strconv.Atoi(lit.Value); err == nil {
+					return c.expr(sc, &ast.BinaryExpr{X: &ast.BasicLit{Kind: token.INT, Value: strconv.Itoa(n - 1)}, Op: token.LSS, Y: v.Y})
+				}
+			}
+		}
 		p := v.Op.Precedence()
 		l, r := c03Paren(c.expr(sc, v.X), p), c03Paren(c.expr(sc, v.Y), p+1)
 		if (v.Op == token.EQL || v.Op == token.NEQ) && r < l {
